@@ -1,6 +1,6 @@
 (* Properties_C20.v — the theorems that decide property C20 on the model, each stated in full and closed by
    `exact <lemma>`; the lemmas live in the Proofs_*.v files.  Nothing else belongs in this file. *)
-From Theo Require Import Base VMModel VMSpec VMStatements Proofs_VM_mem.
+From Theo Require Import Base VMModel VMSpec VMStatements Proofs_VM_mem CompiledStatements Regex Tokens Errors Lexer Scan MacroExtract Grammar LR MacroApply Parser VMCheck VMCheckStatements GenModel Compile Gen_Lexer Gen_Consts CompileStatements Proofs_Compiled.
 Local Open Scope Z_scope.
 
 Theorem C20_range :
@@ -37,3 +37,10 @@ Theorem C20_consts :
     consts_in_range (gr_prog r) = true /\ counts_ok (gr_prog r) = true.
 Proof. exact C20_consts_proof. Qed.
 Print Assumptions C20_consts.
+
+Theorem C20_compiled :
+  forall files main c h fuel s,
+    compile files main = Ok c -> cr_ok c = true -> run_hist fuel h (init (cr_prog c)) = Ok s ->
+    Forall word_ok (data s).
+Proof. exact C20_compiled_proof. Qed.
+Print Assumptions C20_compiled.
